@@ -24,6 +24,8 @@ CLAIMED = {
          "DESIGN.md 5/C06", "definitional + double-counting + filter exactness theorems (Coq) + query correspondence + definition/liveness oracle"),
  "C16": ("Theorems, for all n, m and sizes (no bound): C16_comb_decoder_spec (_index_to_edge_comb(index, n, m) is the index-th m-combination of range(n) in lexicographic order; the two nested loops are transcribed with fuel n), C16_comb_bijection, C16_prod_bijection (base-n digits), C16_partition_bijection (mixed radix), C16_skip_sampling and C16_sampled_edges_distinct (for every sequence of geometric draws >= 1 the visited indices, hence the sampled edges, are pairwise distinct and in range). Correspondence: the three decoders exhaustively on a grid; uniform_erdos_renyi_hypergraph and fast_random_hypergraph re-run in the model from the recorded geometric draws. PARTIAL: the other generator contracts (node sets, sizes, p in {0,1}, complete hypergraphs, configuration-model degrees, lattice/star/sunflower shapes, closure of generated complexes, flag complexes = cliques) are decided by the oracle on parameter grids, not by theorems.",
          "DESIGN.md 5/C16", "unranking theorems (Coq) + exhaustive decoder tables + generator replay from recorded draws + contract oracle"),
+ "C12": ("Theorems (for every model state, order, s >= 1, weighted flag): C12_incidence_entry/shape (a one exactly where the i-th node is a member of the j-th edge of the order), C12_adjacency_entry (zero diagonal; off the diagonal the number of shared edges, thresholded by s), C12_shared_is_count, C12_adjacency_symmetric, C12_adjacency_shape (N x N also without edges / edges of the order), C12_degree_entry, C12_laplacian_entry, C12_laplacian_symmetric; at every state reachable by an admissible history (Inv, by C01's induction): C12_laplacian_row_sums (rows of d K - A sum to zero) and C12_laplacian_psd (x^T L x >= 0 for every integer vector indexed by node label, via Cauchy-Schwarz per edge). Correspondence: incidence / adjacency / degree / intersection profile / clique motif / order-d Laplacian (integer, exact) and the multi-order Laplacian (exact rationals) of generated hypergraphs, sparse or dense at random, compared with the model. PARTIAL: the adjacency tensor, the normalised Laplacian, the multi-order combination's row sums/PSD and sparse = dense for every argument combination are decided by the numpy oracle (entry-wise textbook construction from members()), not by theorems.",
+        "DESIGN.md 5/C12", "entry-wise matrix theorems + Laplacian row-sum/PSD theorems over reachable states (Coq) + exact matrix correspondence + brute-force oracle"),
  "C13": ("Theorems: C13_double_boundary_zero (for every simplex and every candidate face the signed count of the two-step deletions vanishes, by induction on the simplex), C13_dd_zero (every entry of B_k B_{k+1} is zero for every orientation assignment, given that no simplex is listed twice and every facet is listed - what C03 proves of simplicial complexes), C13_entry_formula. Correspondence: every boundary matrix B_0..B_{dim+1} with its index maps and every Hodge Laplacian of generated complexes (int/string labels, explicit ids, random orientations) compared exactly with the model. PARTIAL: symmetry/positive semidefiniteness of the Hodge Laplacians and dim ker L0 = number of components are checked by the oracle (numpy), not proved; the link from C03's invariant to the two hypotheses of C13_dd_zero goes through the canonical sorting of member lists, which is not proved.",
          "DESIGN.md 5/C13", "chain-complex identity (Coq, induction on the simplex) + exact matrix correspondence + numerical oracle"),
  "C15": ("PARTIAL. Theorem C15_trie_search (the prefix tree of utils/trie.py, transcribed with its insert and search, answers exactly whether the sorted word is one of the sorted inserted words, for all words and all insertion sequences). The three measures (edit distance with its redundancy bookkeeping over earlier overlapping maximal faces, face edit distance, simplicial fraction) are transcribed over exact rationals and compared with the implementation for min_size 1..3, both exclude_min_size and normalize values; that they equal the enumerative definitions, lie in [0,1] or are NaN, and equal 1 on downward-closed hypergraphs is decided by the brute-force oracle, not by a theorem (the inclusion-exclusion argument is described in DESIGN.md and left unproved).",
